@@ -317,6 +317,60 @@ fn compressed_malformed(ctx: &mut Ctx) {
             });
         }
     }
+    // edited encodings of the plain proof: the public-input length field (every single-bit flip and
+    // boundary values), truncations and sampled single-bit flips; decoding and verification must
+    // not panic, and nothing but the original statement may be accepted
+    if let Ok(proof) = std::panic::catch_unwind(std::panic::AssertUnwindSafe(|| data.decompress(comp.clone()).expect("decompress"))) {
+        let bytes = proof.to_bytes();
+        let npi = proof.public_inputs.len();
+        let lpos = bytes.len() - 8 * npi - 8;
+        let try_bytes = |e: Vec<u8>| -> (&'static str, String) {
+            let pis = proof.public_inputs.clone();
+            outcome(|| {
+                let d = plonky2::plonk::proof::ProofWithPublicInputs::<G, C, 2>::from_bytes(e, &data.common)?;
+                let same = d.public_inputs == pis;
+                data.verify(d)?;
+                if same { Ok(()) } else { panic!("a proof with different public inputs was accepted") }
+            })
+        };
+        let mut groups: Vec<(&str, String, Vec<Vec<u8>>)> = vec![];
+        let mut lf = vec![];
+        for bit in 0..64 {
+            let mut e = bytes.clone();
+            e[lpos + bit / 8] ^= 1 << (bit % 8);
+            lf.push(e);
+        }
+        for v in [0u64, (npi as u64).wrapping_sub(1), npi as u64 + 1, 1 << 61, (1 << 61) + npi as u64, 1 << 63, u64::MAX, u64::MAX / 8, u64::MAX / 8 + 1] {
+            let mut e = bytes.clone();
+            e[lpos..lpos + 8].copy_from_slice(&v.to_le_bytes());
+            lf.push(e);
+        }
+        groups.push(("length-field", format!("the 8-byte public-input count (offset {lpos}): all 64 single-bit flips and 9 boundary values"), lf));
+        let mut tr: Vec<Vec<u8>> = (0..bytes.len()).step_by(97).map(|n| bytes[..n].to_vec()).collect();
+        tr.extend((1..64).map(|k| bytes[..bytes.len() - k].to_vec()));
+        groups.push(("truncations", format!("prefixes of the {}-byte encoding: every 97th length and the last 63", bytes.len()), tr));
+        let fl: Vec<Vec<u8>> = (0..bytes.len()).step_by(211).map(|i| { let mut e = bytes.clone(); e[i] ^= 1 << (i % 8); e }).collect();
+        groups.push(("bit-flips", "one flipped bit in every 211th byte".to_string(), fl));
+        for (gname, gwhat, inputs) in groups {
+            let id = format!("C18.S.plonkv.shape.bytes.{gname}");
+            ctx.guarded(&id.clone(), CMAL_FILES, |ctx| {
+                let mut bad: Vec<String> = vec![];
+                let n = inputs.len();
+                for (k, e) in inputs.into_iter().enumerate() {
+                    let (what, at) = try_bytes(e);
+                    if what == "panic" {
+                        bad.push(format!("#{k}: panic at {at}"));
+                    }
+                }
+                ctx.add(
+                    Ob::new(id.clone(), CMAL_FILES, format!("valid ProofWithPublicInputs encoding, {gwhat}: {n} edited inputs; from_bytes then verify; concrete inputs"))
+                        .sample(format!("neither the decoder nor the verifier panics (arithmetic overflow, allocation, index), and no proof with other public inputs is accepted; failing: {:?}", &bad[..bad.len().min(4)]))
+                        .goal(A::Bool(bad.is_empty()))
+                        .key(format!("proof-decoder:{gname}:panic")),
+                );
+            });
+        }
+    }
     // edited encodings: every single-bit flip of the first query index's low byte
     let bytes = comp.to_bytes();
     let pattern: Vec<u8> = comp.proof.opening_proof.query_round_proofs.indices.iter().flat_map(|&i| (i as u32).to_le_bytes()).collect();
@@ -578,8 +632,10 @@ fn shape<F: VF>(ctx: &mut Ctx) {
         if F::SYMBOLIC {
             crate::reset();
         }
-        let (data, _) = tiny_circuit::<F>();
-        let full = symbolic::<F>(&data, 5, 1);
+        let (data, ins) = tiny_circuit::<F>();
+        // natively (witness / replay runs) an honest proof, so that the verifier really gets as
+        // far as it does on the accept path of the symbolic run
+        let full = if F::SYMBOLIC { symbolic::<F>(&data, 5, 1) } else { honest::<F>(&data, &ins) };
         let base = full.proof.clone();
         // what `verify` does about shapes: validate_proof_with_pis_shape first, and (inside
         // verify_fri_proof, reached through verify_with_challenges) validate_fri_proof_shape and
@@ -591,7 +647,11 @@ fn shape<F: VF>(ctx: &mut Ctx) {
             }
             let mut b = full.clone();
             b.proof = p.clone();
-            matches!(run::<F>(&data, &b), A::Accept(true, _))
+            // a panic is not a rejection
+            match std::panic::catch_unwind(std::panic::AssertUnwindSafe(|| run::<F>(&data, &b))) {
+                Ok(a) => matches!(a, A::Accept(true, _)),
+                Err(_) => true,
+            }
         };
         let mut goals = vec![A::Bool(check(&base, 0))];
         let mut n = 0;
